@@ -33,7 +33,7 @@ func (fr *Frame) stdlibCall(in *ssa.Call, callee *ssa.Function, args []*GVal) *G
 	case "fmt.Errorf":
 		use("fmt.Errorf returns a non-nil error that is not a SyntaxError; never panics")
 		return &GVal{T: App("ErrOther", SErr, ex.p.FreshConst("errid", SInt)), Typ: in.Type()}
-	case "fmt.Sprintf", "strconv.Quote", "strconv.QuoteRuneToASCII", "strconv.Itoa":
+	case "fmt.Sprintf", "strconv.Quote", "strconv.QuoteRuneToASCII", "strconv.Itoa", "strconv.FormatInt":
 		use(name + " returns some string; never panics")
 		return strRes()
 	case "strconv.Atoi":
